@@ -234,12 +234,6 @@ enum Res {
     /// panic inside the library
     Panic(String),
 }
-impl Res {
-    #[allow(dead_code)]
-    fn is_err_result(&self) -> bool {
-        matches!(self, Res::One(Err(_)))
-    }
-}
 
 #[derive(Clone, Copy, Debug, Default)]
 struct Stats {
@@ -445,10 +439,9 @@ struct Info {
     fault_invoked: bool,
     overshoot: i64,
     split_inside_char: bool,
-    prefix_complete: bool,
 }
 thread_local! {
-    static INFO: RefCell<Info> = const { RefCell::new(Info { fault_invoked: false, overshoot: 0, split_inside_char: false, prefix_complete: false }) };
+    static INFO: RefCell<Info> = const { RefCell::new(Info { fault_invoked: false, overshoot: 0, split_inside_char: false }) };
 }
 fn set_info(i: Info) {
     INFO.with(|c| *c.borrow_mut() = i);
@@ -667,7 +660,7 @@ fn check_write(val: &V, opts: &SerOpts, with_options: bool, short: usize, fault:
         Ok(r) => r,
         Err(m) => return Outcome::Fail(m),
     };
-    set_info(Info { fault_invoked: w.fault_hits > 0, prefix_complete: w.fault_hits > 0 && !w.accepted.is_empty(), ..Info::default() });
+    set_info(Info { fault_invoked: w.fault_hits > 0, ..Info::default() });
     if !full.starts_with(&w.accepted) {
         return Outcome::Fail(format!(
             "bytes accepted by the writer are not a prefix of the fault-free output: {:?} vs {:?}",
@@ -1251,7 +1244,7 @@ impl Property for C10 {
     type Case = Case;
 
     fn rule() -> String {
-        "Enumerated fault plans. Reader: each of a fixed list of documents (crafted so that many prefixes are complete documents; streams, null-like documents, multi-byte text, BOM, CRLF) plus one 20 kB document x every fault position (the call that would deliver byte k, k in 0..=len; the n-th read call, n in 0..=calls) x 6 error kinds x {sticky, clean EOF afterwards} x chunking {1, 3, all} x {from_reader, with_deserializer_from_reader, read collected} x fitting target types; end of input at every position inside a multi-byte character; max_reader_input_bytes in {0, 1, len-1, len, len+1, 2 len} (plus len-3, len-2 for BOM inputs) with every chunking, and caps against an endless reader; random streams x random fault plans. Writer: each of a fixed list of values x serializer option vectors x every failing write call n and every accepted byte count k x {all, 1, 3} bytes accepted per call x error kinds (and Ok(0)) x {to_io_writer, to_io_writer_with_options}. Oracle: see DESIGN.md C10 (invoked fault => Err / iterator Ok items are a prefix of the fault-free ones and an Err is yielded; fault not invoked => identical result; cap >= len => identical, cap < len => Err, bytes pulled <= cap + 16 KiB; writer: Err carrying the writer's error kind, accepted bytes a prefix of the fault-free output). Non-trivial: reader cases whose delivered prefix is itself accepted by the same entry point without error (only the deferred error check separates success from failure); cap cases with cap within 1 of the length or whose capped prefix is a complete document; writer cases whose fault is reached after at least one accepted byte. distinct = distinct case.".into()
+        "Enumerated fault plans. Reader: each of ~85 crafted documents (many prefixes are complete documents; streams, null-like documents, content-free text after '...', multi-byte text, BOM, CRLF) x every fault position (the call that would deliver byte k, k in 0..=len; the n-th read call up to the call that reports EOF, plus one unreachable index) x 6 error kinds x {sticky, clean EOF afterwards} x chunking {1, 3, all} x {from_reader, with_deserializer_from_reader, read collected; for the struct target also from_reader_valid / _validate and read_valid / _validate} x fitting target types; every sequence of <= 3 lines over a 12-line alphabet (quick: all singles and pairs, two thirds of the triples, two of the three chunkings) x every position x entry points with kind / post-fault behaviour rotating; one 20 kB document with faults on a stride and around the 8 KiB / 16 KiB marks; end of input at every position inside a multi-byte character; max_reader_input_bytes in {0, 1, len-1, len, len+1, 2 len} and every value below len for documents under 200 bytes (plus len-4..len-2 for BOM inputs) with every chunking, and caps {0,1,7,100,4096,8192,8193,20000,100000} against 15 endless readers; random streams x random fault plans. Writer: each of 60 values (every serde data-model call, wrappers, anchors, block scalars) x 11 serializer option vectors x every failing write call n and every accepted byte count k x {all, 1, 3} bytes accepted per call x error kinds (and Ok(0)) x {to_io_writer, to_io_writer_with_options}. Oracle: DESIGN.md C10 (invoked fault => Err / iterator: Ok items are a prefix of the fault-free Ok items and an Err is yielded; fault never invoked => identical result; cap >= len => identical, cap < len => Err, bytes pulled <= cap + 16 KiB; writer: Err carrying the writer's error kind, accepted bytes a prefix of the fault-free output, short writes alone change nothing). Non-trivial: reader cases whose delivered prefix is itself accepted without error by the same entry point (only the deferred error check separates success from failure); cap cases with the cap within 1 of the length or whose capped prefix is a complete document; end of input inside a character; endless readers; writer cases whose fault is reached after at least one accepted call / byte. distinct = distinct case.".into()
     }
     fn assumptions() -> Vec<String> {
         vec![
@@ -1548,7 +1541,7 @@ impl Property for C10 {
         // ---- random streams x random fault plans -----------------------------------------------
         {
             let strat = arb_read_case().prop_filter("reader_percent_eof", |c| !hazardous(c));
-            ctx.run_strategy("read-fault-random", 1, ctx.tier.pick(80_000, 600_000), &strat, |c| match c {
+            ctx.run_strategy("read-fault-random", 1, ctx.tier.pick(80_000, 2_000_000), &strat, |c| match c {
                 Case::Read { doc, target, entry, fault: ReadFault { at: FaultAt::Byte(k), .. }, .. } => prefix_complete(doc, *k, *target, *entry),
                 _ => false,
             });
